@@ -115,15 +115,17 @@ Print Assumptions C19_language_strip_preserves_expression.
    regenerated table): whenever the program yields a value and every leaf is
    exact (reading its printed text back gives its value: "constants print
    exactly", variables are bound parameters), the C text denotes that value.
-   Hypotheses: strtod("2") = 2.0; exact leaves.
+   The denotation distinguishes the int of an integer literal from a double (usual
+   arithmetic conversions: 7/2 is 3, 2*DBL_EPSILON is a double), so a leaf printed
+   as an integer literal is NOT exact: "constants print exactly AND as floating
+   literals" is what the hypothesis says.  Hypothesis: exact leaves.
    Not proved (gap covered by the execution leg: the compiled C text is run
    against the real src_interpreter on every run): that [eval_frag] is C01's
    [den] over the regenerated primitive bodies (C13's closed forms add_run ...
    say so primitive by primitive); the other primitives (FSIN FCOS FLN FSIGMOID
    AQ need libm oracles; FIFB, > <, FLENGTH, SIFE); strings. *)
-Theorem C19_c_denotes_partial : forall lit rho env,
-  lit [50] = Some two ->
-  forall t, frag lit rho env t ->
+Theorem C19_c_denotes_partial : forall lit rho env t,
+  frag lit rho env t ->
   forall r, eval_frag rho env t = Some r -> denote lit rho no_holes (ast env FC t) = Some (CD r).
 Proof. exact c_denotes_frag. Qed.
 Print Assumptions C19_c_denotes_partial.
@@ -166,6 +168,11 @@ Proof. vm_compute. reflexivity. Qed.
    literals and the parameter X1 = 1.5); by the theorem its C text
    X1<3.500000 ? (X1/sqrt(3.500000)) : fabs(X1)  denotes the interpreter's value *)
 Example c_denotes_hypotheses :
-  lit0 [50] = Some two /\ frag lit0 rho0 env1 t_exec /\
+  frag lit0 rho0 env1 t_exec /\
   language_tree env1 FC t_exec = Some (bz "X1<3.500000 ? (X1/sqrt(3.500000)) : fabs(X1)").
-Proof. split; [reflexivity|]. split; [exact frag_example|]. vm_compute. reflexivity. Qed.
+Proof. split; [exact frag_example|]. vm_compute. reflexivity. Qed.
+
+(* a real constant printed as an integer literal denotes an int: 7/2 is 3 *)
+Example integer_literals_are_ints :
+  denote lit0 rho0 no_holes (EBin (p1 47) (EAtom (bz "7")) (EAtom (bz "2"))) = Some (CI 3).
+Proof. vm_compute. reflexivity. Qed.
